@@ -111,6 +111,24 @@ def inject(rng, h, keys, p=0.5):
     return h
 
 
+def sibling_shape(rng, keys):
+    """unions whose members mention one key at different depths and positions (the recursion guard of one member
+    must not leak into its siblings), possibly below a container"""
+    k = rng.choice(keys)
+    other = rng.choice([['cls', 'UserC'], ['cls', 'NoneType'], ['cont', 'Set', ['cls', 'bool']]])
+    nest = lambda x: rng.choice([['cont', 'List', x], ['cont', 'Tuple', x], ['cont', 'Sequence', x],  # noqa: E731
+                                 ['map', 'Dict', ['cls', 'str'], x], ['tuplefixed', [x, ['cls', 'str']]],
+                                 ['cont', 'List', ['cont', 'List', x]]])
+    members = rng.choice([[nest(k), k], [k, nest(k)], [nest(k), k, other], [other, nest(k), k], [nest(k), nest(k), k],
+                          [nest(k), other, k, nest(rng.choice(keys))]])
+    uniq = []
+    for m in members:
+        if m not in uniq:
+            uniq.append(m)
+    u = ['union', uniq] if len(uniq) > 1 else uniq[0]
+    return rng.choice([u, u, ['cont', 'List', u], ['map', 'Dict', ['cls', 'str'], u], ['tuplefixed', [u, ['cls', 'int']]]])
+
+
 def IR_hashable_key(k):
     return k[0] == 'cls' and k[1] in ('int', 'str', 'float', 'bytes', 'bool', 'UserA', 'NoneType', 'complex')
 
@@ -192,7 +210,12 @@ def gen_cases(rng, n, depth, entries, stable_share=0.75):
             # a user replacement mentioning float/complex/int under the tower is chained
             stable = False
         for _ in range(3):
-            h = inject(rng, IR.gen_hint(rng, rng.choice([1, 2, 2, 3, depth])), allkeys)
+            if rng.random() < 0.3:
+                h = sibling_shape(rng, allkeys)
+            else:
+                # mostly one key per hint, so that the same key recurs at several places and depths
+                h = inject(rng, IR.gen_hint(rng, rng.choice([1, 2, 2, 3, depth])),
+                           allkeys if rng.random() < 0.4 else [rng.choice(allkeys)], p=0.7)
             if h[0] == 'annot' or not mentions(h, allkeys):
                 h = rng.choice([rng.choice(allkeys), ['cont', 'List', rng.choice(allkeys)],
                                 ['map', 'Dict', ['cls', 'str'], rng.choice(allkeys)],
